@@ -217,6 +217,19 @@ func runC11(c *sim.Ctx) *sim.Violation {
 		return nil
 	}
 	typ := typeName(drv.TypeOf(p))
+	// the very FIRST read-only call on this packet (nothing has been called on it
+	// since the last setter): a snapshot taken by reflection before it must still
+	// hold afterwards (no lazily filled cache, no "normalising" of the packet)
+	{
+		deep0 := drv.DeepHash(p)
+		k0 := t.Int(6)
+		var name string
+		if pi := sim.Guard(func() { name = readOnlyOp(c, p, k0) }); pi == nil && drv.DeepHash(p) != deep0 {
+			return sim.V("C11/"+typ+"/first-"+name+"-changed-hidden-state",
+				"the first %s on a freshly %s %s packet changed memory reachable from it (deep snapshot differs)\n%s", name, how, typ, a.Canon())
+		}
+		c.Count("probe.snapshot-before-the-first-read-only-call")
+	}
 	B0, err, pi := c11Encode(p, 1, 0)
 	if pi != nil || err != nil {
 		return sim.V("C11/"+typ+"/encode-failed", "err=%v panic=%v\n%s", err, pi, a.Canon())
@@ -239,6 +252,12 @@ func runC11(c *sim.Ctx) *sim.Violation {
 			f, _ := ref.Encode(a)
 			if o := ReadOne(link.NewReader(c.Muted(), f, link.Mode{})); o.Kind == "packet" {
 				return o.P
+			}
+			return nil
+		}
+		if how == "zero-literal" {
+			if q, _, err := buildGuardZero(a, nil); err == nil {
+				return q
 			}
 			return nil
 		}
